@@ -98,6 +98,11 @@ fn run_case(ops: &[String], out: &mut impl Write) {
                 let n: i32 = w[1].parse().unwrap();
                 nsig::kill(nix::unistd::Pid::this(), nix_signal(n)).unwrap();
             }
+            // thread-directed (`raise()` = pthread_kill(self)): a pending queue of its own, next to the process-wide one
+            "raiset" => {
+                let n: i32 = w[1].parse().unwrap();
+                nsig::raise(nix_signal(n)).unwrap();
+            }
             "dispatch" => {
                 el.dispatch(Some(Duration::ZERO), &mut ()).unwrap();
             }
